@@ -195,6 +195,21 @@ Definition thread_mutated (i : nat) (tr : list cev) : bool :=
 Definition thread_refused (i : nat) (tr : list cev) : bool :=
   existsb (fun c => by_thread i c && create_refused c) tr.
 
+(* thread-local ordering: every mutating cluster effect comes after a successful create
+   ([evs] = the events of ONE thread, in order) *)
+Definition is_created_ev (c : cev) : bool := match created_rev c with Some _ => true | None => false end.
+
+Fixpoint mutations_guarded (created : bool) (evs : list cev) : bool :=
+  match evs with
+  | [] => true
+  | c :: t => (if is_mutation_ev c then created else true)
+              && mutations_guarded (created || is_created_ev c) t
+  end.
+
+(* the first history read of a thread *)
+Definition first_history (evs : list cev) : option (list release) :=
+  match evs with c :: _ => history_seen c | [] => None end.
+
 Definition count_deployed (l : list release) : nat :=
   List.length (filter (fun r => status_eqb (st r) SDeployed) l).
 
